@@ -94,6 +94,28 @@ Theorem C34_pinned : forall track new : bytes, track <> [] ->
 Proof. exact pinned_cannot_switch. Qed.
 Print Assumptions C34_pinned.
 
+(* the system-level sentence, at the entry point snapd uses (overlord/snapstate resolveChannel): for the snap the device model
+   pins to a track (its kernel with a kernel track, its gadget with a gadget track), every non-empty request - whatever the
+   current channel is, also when the request spells the current channel - is refused or resolved to the pinned track
+   itself or to track/..., and whatever the parser reads in the result has the pinned track; an empty request keeps the
+   current channel; without a pin it is channel.Resolve *)
+Theorem C34_snapstate_pinned : forall (is_kernel is_gadget : bool) (ktrack gtrack old new : bytes),
+  pinned_for is_kernel is_gadget ktrack gtrack <> [] -> new <> [] ->
+  match resolve_channel is_kernel is_gadget ktrack gtrack old new with
+  | Some r => (r = pinned_for is_kernel is_gadget ktrack gtrack \/
+               has_prefix (pinned_for is_kernel is_gadget ktrack gtrack ++ [slash]) r = true) /\
+              (forall rc, parse_verbatim [] r dash = Some rc -> c_track rc = pinned_for is_kernel is_gadget ktrack gtrack)
+  | None => True
+  end.
+Proof. exact snapstate_pinned. Qed.
+Print Assumptions C34_snapstate_pinned.
+
+Theorem C34_snapstate_no_request_or_no_pin : forall (ik ig : bool) (kt gt old new : bytes),
+  resolve_channel ik ig kt gt old [] = Some old /\
+  (pinned_for ik ig kt gt = [] -> new <> [] -> resolve_channel ik ig kt gt old new = resolve old new).
+Proof. intros. split; [apply snapstate_no_request|apply snapstate_unpinned]. Qed.
+Print Assumptions C34_snapstate_no_request_or_no_pin.
+
 (* non-vacuity: the hypotheses are satisfiable and the functions do what the names say on ordinary inputs *)
 Example C34_ex_parse : parse (bs "amd64") (bs "latest/edge") [] = Some (mkChan (bs "amd64") (bs "edge") [] (bs "edge") []).
 Proof. vm_compute. reflexivity. Qed.
@@ -117,4 +139,10 @@ Proof. vm_compute. reflexivity. Qed.
 Example C34_ex_fullstr : full_of_string (bs "edge//fix") = Some (bs "latest/edge/fix").
 Proof. vm_compute. reflexivity. Qed.
 Example C34_ex_fullstr_unvalidated : full_of_string (bs "foo/bar") = Some (bs "foo/bar").
+Proof. vm_compute. reflexivity. Qed.
+Example C34_ex_snapstate_same : resolve_channel true false (bs "18") [] (bs "latest/stable") (bs "latest/stable") = None.
+Proof. vm_compute. reflexivity. Qed.
+Example C34_ex_snapstate_risk : resolve_channel true false (bs "18") [] (bs "latest/stable") (bs "stable") = Some (bs "18/stable").
+Proof. vm_compute. reflexivity. Qed.
+Example C34_ex_snapstate_other_snap : resolve_channel false false (bs "18") [] (bs "foo/stable") (bs "edge") = Some (bs "foo/edge").
 Proof. vm_compute. reflexivity. Qed.
